@@ -129,9 +129,8 @@ class SuiteSparseSolver:
         except ValueError:
             logger.debug('Unexpected symbolic factorization.')
             self.F = self._symbolic(self.A)
-            self.solve(self.A, self.b)
 
-            return np.ravel(self.b)
+            return self.solve(self.A, self.b)
         except ArithmeticError:
             logger.error('Jacobian matrix is singular.')
             # diag = self.A[0:self.A.size[0] ** 2:self.A.size[0]+1]
@@ -195,6 +194,8 @@ class UMFPACKSolver(SuiteSparseSolver):
             umfpack.linsolve(A, b)
         except ArithmeticError:
             logger.error('Singular matrix. Case is not solvable')
+            # `b` is left unchanged by the failed call and must not be returned as the solution
+            return np.full(len(b), np.nan)
         return np.ravel(b)
 
 
@@ -220,4 +221,6 @@ class KLUSolver(SuiteSparseSolver):
             klu.linsolve(A, b)
         except ArithmeticError:
             logger.error('Singular matrix. Case is not solvable')
+            # `b` is left unchanged by the failed call and must not be returned as the solution
+            return np.full(len(b), np.nan)
         return np.ravel(b)
